@@ -95,6 +95,9 @@ func SealWithIV(key, msg, ctx, iv []byte) ([]byte, error) {
 	if len(msg) == 0 {
 		return nil, ErrMissingMessage
 	}
+	if uint64(len(msg)) >= 1<<32 {
+		return nil, ErrOverflow
+	}
 	k := sha256.Sum256(key)
 	out := make([]byte, headerLen, Overhead+len(msg))
 	copy(out, magic)
@@ -125,7 +128,7 @@ func unseal(key, data, ctx []byte) ([]byte, error) {
 	}
 	if len(data) <= Overhead || string(data[:4]) != string(magic) ||
 		binary.LittleEndian.Uint32(data[4:8]) != ivLen || binary.LittleEndian.Uint32(data[8:12]) != tagLen ||
-		uint64(binary.LittleEndian.Uint32(data[12:16])) != uint64(len(data)-Overhead) {
+		uint64(binary.LittleEndian.Uint32(data[12:16])) != uint64(len(data)-Overhead) || uint64(len(data)-Overhead) >= 1<<32 {
 		return nil, ErrDecryptData
 	}
 	k := sha256.Sum256(key)
